@@ -890,7 +890,11 @@ int disasm_msp430(
     n++;
   }
 
-  if (table_msp430[n].instr == NULL) { strcpy(instruction, "???"); }
+  if (table_msp430[n].instr == NULL)
+  {
+    strcpy(instruction, "???");
+    count += 2;
+  }
 
   if (prefix != 0xffff)
   {
